@@ -50,6 +50,9 @@ Inductive jr_ty (H : hier) (mx : nat) : ty -> ty -> Prop :=
 | jr_any_absorbs : forall ts, In TAny ts -> jr_ty H mx (TUnion ts) TAny
 | jr_optional_any : forall ts c, In TAny ts -> In (TName KNamed c) ts ->
     c = c_none \/ c = c_none_unresolved -> jr_ty H mx (TUnion ts) (TUnion [TAny; TName KNamed c_none])
+(* extra, not named in the property text: CombineContainers re-wraps a joined union that collapsed to one
+   type as UnionType((x,)) (the one-member-union quirk behind finding single-member-union-after-combine-containers) *)
+| jr_one_member_wrap : forall x, jr_ty H mx x (TUnion [x])
 (* (2) CombineContainers *)
 | jr_tuple_homogeneous : forall k c ps, jr_ty H mx (TTup k c ps) (TGen k c [TUnion ps])
 | jr_callable_degenerate : forall k c ps, jr_ty H mx (TCall k c ps) (TGen k c [TAny; last_or TAny ps])
